@@ -521,10 +521,11 @@ impl Compress {
     }
 
     /// Compress a name starting at `offset` using the suffix dictionary `dict`
-    /// `base_offset` is an additional offset added to the location stored in
-    /// the dictionary. This function assumes that the input is trusted and
-    /// uncompressed, and doesn't perform any checks. Returns the length of
-    /// the name as well as the location right after the uncompressed name.
+    /// `base_offset` is the location, in the output, where this name starts:
+    /// suffixes are remembered by their location in the output. This function
+    /// assumes that the input is trusted and uncompressed, and doesn't
+    /// perform any checks. Returns the length of the name as well as the
+    /// location right after the uncompressed name.
     pub fn copy_compressed_name_with_base_offset(
         dict: &mut SuffixDict,
         compressed: &mut Vec<u8>,
@@ -534,16 +535,18 @@ impl Compress {
     ) -> CompressedNameResult {
         let uncompressed_name_len = Compress::raw_name_len_after_decompression(packet, offset);
         let initial_compressed_len = compressed.len();
+        let initial_offset = offset;
         let final_offset = offset + uncompressed_name_len;
         loop {
             let label_len = packet[offset] as usize;
             if label_len & 0xc0 == 0xc0 {
                 panic!("copy_compressed_name() called on an already compressed name");
             }
-            if let Some(ref_offset) =
-                dict.insert(&packet[offset..final_offset], base_offset + offset)
-            {
-                assert!(offset < 65536 >> 2); // Checked in dict.insert()
+            if let Some(ref_offset) = dict.insert(
+                &packet[offset..final_offset],
+                base_offset + (offset - initial_offset),
+            ) {
+                assert!(ref_offset < 65536 >> 2); // Checked in dict.insert()
                 compressed.push((ref_offset >> 8) as u8 | 0xc0);
                 compressed.push((ref_offset & 0xff) as u8);
                 break;
@@ -571,7 +574,8 @@ impl Compress {
         packet: &[u8],
         offset: usize,
     ) -> CompressedNameResult {
-        Self::copy_compressed_name_with_base_offset(dict, compressed, packet, offset, 0)
+        let base_offset = compressed.len();
+        Self::copy_compressed_name_with_base_offset(dict, compressed, packet, offset, base_offset)
     }
 }
 
